@@ -249,9 +249,14 @@ def g2(ctx):
 def g3(ctx):
     for nm, ptrop, final in (('send', 'pointer::KanalPtr::write', UNLOCKED), ('recv', 'pointer::KanalPtr::read', UNLOCKED), ('terminate', None, TERMINATED)):
         b = ctx.body(SIGK + nm)
+        this = ('param', 1)
         if b is None:
-            ctx.violate(SIGK + nm, None, 'anchor missing', sig='anchor')
-            continue
+            # the body may have been merged into its only caller, the terminator method that consumes the capability
+            b = ctx.body('signal::SignalTerminator::<T>::' + nm)
+            this = ('field', ('param', 1), '0')
+            if b is None or not any(n == 'signal::Signal::wake' for n in b.callee_names()):
+                ctx.violate(SIGK + nm, None, 'anchor missing', sig='anchor')
+                continue
         ctx.instance(SIGK + nm)
         for p, evs in ret_paths(ctx, b):
             ctx.oblige(1, sample='Signal::%s: %s then wake(%s)' % (nm, ptrop, final))
@@ -261,7 +266,9 @@ def g3(ctx):
                 ctx.violate(b.key, p, 'Signal::%s wakes %d times' % (nm, len(wakes)))
                 continue
             w = wakes[0]
-            if w.args[0] != ('param', 1) or not is_const(w.args[1], final):
+            if this != ('param', 1) and w.args[0][0] == 'load' and w.args[0][1] == ('pfield', ('deref', ('param', 1)), '0'):
+                this = w.args[0]  # `&self` terminator: the pointer is loaded from self.0
+            if w.args[0] != this or not is_const(w.args[1], final):
                 ctx.violate(b.key, p, 'Signal::%s wakes with the wrong signal or final state: %s' % (nm, fmt(w.args[1])), at=w.at)
             if ptrop:
                 po = [e for e in calls if e.name == ptrop]
@@ -271,7 +278,7 @@ def g3(ctx):
                 if po[0].idx > w.idx:
                     ctx.violate(b.key, p, 'Signal::%s publishes (wake) before the payload transfer' % nm, at=w.at)
                 recv = po[0].args[0]
-                if not (recv[0] in ('ref', 'rawptr') and recv[1] == ('pfield', ('deref', ('param', 1)), 'ptr')):
+                if not (recv[0] in ('ref', 'rawptr') and recv[1] == ('pfield', ('deref', this), 'ptr')):
                     ctx.violate(b.key, p, 'Signal::%s transfers through something other than this signal\'s ptr' % nm, at=po[0].at)
                 if nm == 'send' and (len(po[0].args) < 2 or po[0].args[1] != ('param', 2)):
                     ctx.violate(b.key, p, 'Signal::send does not write its argument', at=po[0].at)
@@ -279,7 +286,7 @@ def g3(ctx):
                     ctx.violate(b.key, p, 'Signal::recv does not return what it read')
             others = [e for e in calls if e.name not in ('signal::Signal::wake', ptrop)]
             for o in others:
-                if o.idx > w.idx and contains(o.args, ('param', 1)):
+                if o.idx > w.idx and contains(o.args, this):
                     ctx.violate(b.key, p, 'Signal::%s touches the signal after wake (%s)' % (nm, o.name), at=o.at)
 
 
